@@ -1,5 +1,6 @@
 """C14 - queued charts dispatch posted events in deque order, one per step."""
 from . import queue_targets as Q
+from .C16 import t_chart_init
 
 LEVEL = 'proof'
 TAGS = ('C14',)
@@ -24,4 +25,5 @@ def build(src, tier):
     for host in Q.HOSTS:
         ts += [Q.t_post(host, 'fifo', ('C14',)), Q.t_post(host, 'lifo', ('C14',)), Q.t_next_rtc(host),
                Q.t_complete_circuit(host)]
+    ts.append(t_chart_init('HsmWithQueues'))
     return [(w, ts)]
